@@ -54,7 +54,7 @@ Reset == Ev.e = "Reset" /\ kind' = Ev.kind /\ image' = Ev.image /\ resp' = <<>> 
 Allowed ==
   CASE Ev.call = "GetCount" -> TRUE
     [] Ev.call \in {"GetName", "GetSize"} -> (Ev.i >= count => ~Ev.ok)
-    [] Ev.call = "SeekBeyond" -> (Ev.i >= count => ~Ev.ok) /\ (Ev.ok => Ev.val = 0)     \* val: how many absolute seeks next to 2^64 a member stream accepted
+    [] Ev.call = "SeekBeyond" -> (Ev.i >= count => ~Ev.ok) /\ (Ev.ok => Ev.val = 0)     \* val: how many out-of-range seeks a member stream accepted (absolute next to 2^64; relative, from a position inside the member)
     [] Ev.call = "Extract" ->                                                    \* extraction to disk: the same extent rule, whatever the compression kind
          /\ (Ev.i >= count => ~Ev.ok)
          /\ LET xs == Extents(Ev.i) IN
